@@ -219,6 +219,36 @@ def run_impl(case, pid):
             for w in self.dwatches.pop(path, []):
                 w(_Event(type_, path))
 
+        # -- the write API zkutils / masterapi use ------------------------------------------------------
+        @staticmethod
+        def make_default_acl(acl):
+            return ['default'] + list(acl or [])
+
+        def create(self, path, value=b'', acl=None, ephemeral=False, sequence=False, makepath=False):
+            if path in self.nodes:
+                raise _ke.NodeExistsError(path)
+            self.zxid += 1
+            self.nodes[path] = [value, self.zxid, self.zxid, 0]
+            return path
+
+        def set(self, path, value, version=-1):
+            if path not in self.nodes:
+                raise _ke.NoNodeError(path)
+            self.put(path, value)
+
+        def set_acls(self, path, acls, version=-1):
+            if path not in self.nodes:
+                raise _ke.NoNodeError(path)
+
+        def get_children(self, path, watch=None):
+            pre = path.rstrip('/') + '/'
+            return sorted(p[len(pre):] for p in self.nodes if p.startswith(pre) and '/' not in p[len(pre):])
+
+        def delete(self, path, version=-1, recursive=False):
+            if path not in self.nodes:
+                raise _ke.NoNodeError(path)
+            self.remove(path)
+
         def put(self, path, data):
             self.zxid += 1
             rec = self.nodes.get(path)
@@ -245,6 +275,9 @@ def run_impl(case, pid):
 
     fzk = _FakeZk()
     from treadmill import zknamespace as _z
+    from treadmill.scheduler import masterapi as _masterapi
+    fzk.nodes[_z.path.appmonitor()] = [b'', 1, 1, 0]        # /app-monitors (its data: the suspension table)
+    intent = {}             # monitor name -> policy the history asked for (None: never given)
 
     captured = {}
 
@@ -280,23 +313,36 @@ def run_impl(case, pid):
             k = op[0]
             if k == 'mon':
                 _, n, count, policy = op
-                conf = {'count': count}
-                if policy is not None:
-                    conf['policy'] = policy
-                mon_nodes[app(n)] = _yaml.safe_dump(conf)
-                if not fzk.put(_z.path.appmonitor(app(n)), mon_nodes[app(n)].encode()):
+                # configuration goes through the real masterapi.update_appmonitor (what the API / CLI call);
+                # a policy that is not given (None) leaves the configured one as it is
+                mpath = _z.path.appmonitor(app(n))
+                existed = mpath in fzk.nodes
+                z0 = fzk.nodes[mpath][2] if existed else None
+                _masterapi.update_appmonitor(fzk, app(n), count, policy)
+                z1 = fzk.nodes[mpath][2]
+                want = policy if policy is not None else (intent.get(app(n)) if existed else None)
+                intent[app(n)] = want
+                mon_nodes[app(n)] = True
+                if z1 == z0:
+                    # nothing was written (same content): no watch fires, the monitor is not reconfigured
+                    run.tags.add('mon-unchanged')
+                    continue
+                if not existed:
                     # a new child of /app-monitors: the children watch fires and sets up the data watch
                     mons_watch(sorted(mon_nodes))
-                # (an existing node whose data changed: its data watch fired inside put)
+                # (an existing node whose data changed: its data watch fired inside set)
+                if policy is None and existed and want is not None:
+                    run.tags.add('count-only-update-keeps-policy')
                 cfg_count[app(n)] = count
                 exact_last[app(n)] = now[0]
                 exact[app(n)] = Fraction(2 * count)
-                run.op('mon %d %d %s' % (n, count, policy if policy else 'none'), 'ok')
+                run.op('mon %d %d %s' % (n, count, want if want else 'none'), 'ok')
                 n_change += 1
             elif k == 'delmon':
                 if app(op[1]) in mon_nodes:
                     del mon_nodes[app(op[1])]
-                    fzk.remove(_z.path.appmonitor(app(op[1])))
+                    intent.pop(app(op[1]), None)
+                    _masterapi.delete_appmonitor(fzk, app(op[1]))
                     mons_watch(sorted(mon_nodes))
                 exact.pop(app(op[1]), None)
                 run.op('delmon %d' % op[1], 'ok')
@@ -386,7 +432,9 @@ def run_impl(case, pid):
                         else:
                             saw_delete = True
                             surplus = cur - count
-                            pol = before[nm].get('policy') or 'fifo'
+                            # the policy the HISTORY configured (a count-only update keeps it), not the one in `state`
+                            pol = intent.get(nm) if intent.get(nm) in ('fifo', 'lifo', None) else before[nm].get('policy')
+                            pol = pol or 'fifo'
                             exp = grouped[nm][:surplus] if pol == 'fifo' else grouped[nm][-surplus:] if surplus > 0 else []
                             if surplus <= 0 or list(c[2]) != exp:
                                 run.hits.append(fw.Hit(clause='delete-set', call_site='reevaluate',
